@@ -18,6 +18,140 @@ def to_smt2(ob):
     return s.to_smt2()
 
 
+def _symbols(t, cache):
+    """(uninterpreted constants and functions) occurring in t, as a frozenset of (name, is_array_or_function)."""
+    i = t.get_id()
+    if i in cache:
+        return cache[i]
+    out = set()
+    seen = set()
+    stack = [t]
+    while stack:
+        x = stack.pop()
+        j = x.get_id()
+        if j in seen:
+            continue
+        seen.add(j)
+        if z3.is_quantifier(x):
+            stack.append(x.body())
+            continue
+        if z3.is_app(x):
+            d = x.decl()
+            if d.kind() == z3.Z3_OP_SELECT:
+                a, ix = x.arg(0), x.arg(1)
+                if z3.is_const(a) and a.decl().kind() == z3.Z3_OP_UNINTERPRETED and z3.is_int_value(ix):
+                    out.add(('%s[%s]' % (a.decl().name(), ix.as_long()), False))     # one cell of a small array: its own symbol
+                    continue
+            if d.kind() == z3.Z3_OP_UNINTERPRETED:
+                out.add((d.name(), d.arity() > 0 or z3.is_array(x)))
+            stack.extend(x.children())
+    cache[i] = frozenset(out)
+    return cache[i]
+
+
+_SYMCACHE = {}
+_QCACHE = {}
+
+
+def _is_q(t):
+    i = t.get_id()
+    if i not in _QCACHE:
+        _QCACHE[i] = ('forall' in t.sexpr()[:12] or 'exists' in t.sexpr()[:12]) if z3.is_quantifier(t) else _has_q(t)
+    return _QCACHE[i]
+
+
+def _has_q(t):
+    seen = set()
+    stack = [t]
+    while stack:
+        x = stack.pop()
+        j = x.get_id()
+        if j in seen:
+            continue
+        seen.add(j)
+        if z3.is_quantifier(x):
+            return True
+        stack.extend(x.children())
+    return False
+
+
+_INDEX = {}        # symbol -> set of assumption term ids mentioning it (grows as assumptions are seen)
+_TERMS = {}        # term id -> (term, symbols)
+
+
+def _register(a):
+    i = a.get_id()
+    if i not in _TERMS:
+        sy = _symbols(a, _SYMCACHE)
+        _TERMS[i] = (a, sy)
+        for sym in sy:
+            _INDEX.setdefault(sym, set()).add(i)
+    return i
+
+
+def relevant_assumptions(ob, depth, min_size=40):
+    """A sound weakening used as an EARLY attempt only (unsat of a query with fewer assumptions implies unsat of the
+    full one; any other answer falls through to a larger subset and finally to the full query).
+    Assumptions are selected by `depth` rounds of symbol sharing starting from the goal; symbols that occur in very many
+    assumptions (sizes, the buffer length) do not propagate relevance, but a small assumption all of whose symbols are
+    already relevant is always taken (range facts, preconditions)."""
+    asm = ob.assumptions
+    if len(asm) < min_size:
+        return None
+    ids = [_register(a) for a in asm]
+    aset = set(ids)
+    lim = max(12, len(asm) // 50)
+    rel = set(_symbols(ob.goal, _SYMCACHE))
+    used = set()
+    if not rel:
+        # unreachability obligations (goal False): the refuting facts are about the branch just taken
+        npc = ob.meta.get('n_pc', len(asm))
+        for a in asm[max(0, npc - 3):npc]:
+            rel |= _symbols(a, _SYMCACHE)
+            used.add(a.get_id())
+    frontier = set(rel)
+    for rnd in range(depth):
+        new = set()
+        for sym in frontier:
+            lst = _INDEX.get(sym, ())
+            if rnd > 0 and len(lst) > lim and len(lst & aset) > lim:
+                continue        # ubiquitous symbol: does not propagate (the goal's own symbols always do)
+            for tid in lst:
+                if tid in aset and tid not in used:
+                    used.add(tid)
+                    new |= _TERMS[tid][1]
+        frontier = new - rel
+        rel |= new
+        if not frontier:
+            break
+    for sym in rel:        # closed small facts about relevant symbols
+        for tid in _INDEX.get(sym, ()):
+            if tid in aset and tid not in used:
+                sy = _TERMS[tid][1]
+                if len(sy) <= 3 and sy <= rel:
+                    used.add(tid)
+    if len(used) * 10 > len(asm) * 9:
+        return None
+    return [_TERMS[tid][0] for tid in ids if tid in used]
+
+
+def to_smt2_pruned(ob, depth=2):
+    asm = relevant_assumptions(ob, depth)
+    if asm is None:
+        return None
+    s = z3.Solver()
+    for a in asm:
+        s.add(a)
+    s.add(z3.Not(ob.goal))
+    return s.to_smt2()
+
+
+def _pruned_worker(job):
+    name, smt2, timeout_ms = job
+    r, t, model, reason = _z3_try(smt2, timeout_ms, False)
+    return name, r, t
+
+
 def _model_dict(m):
     out = {}
     for d in m.decls():
@@ -117,8 +251,13 @@ def run_cvc5(smt2, timeout_s, want_model=False, extra=()):
 
 def _portfolio_worker(job):
     """z3 (short) -> cvc5 int-blasting (bit-vector queries) -> cvc5 -> z3 (long). First definite answer wins."""
-    name, smt2, timeout_s, use_cvc5 = job
+    name, smt2, timeout_s, use_cvc5 = job[:4]
+    pruned = job[4] if len(job) > 4 else None
     t0 = time.time()
+    if pruned:
+        r, t, model, reason = _z3_try(pruned, max(2000, timeout_s * 250), False)
+        if r == 'unsat':
+            return name, r, time.time() - t0, None, 'z3(relevant assumptions)', ['z3-pruned:unsat:%.1fs' % t]
     has_bv = '_ BitVec' in smt2
     has_q = '(forall' in smt2 or '(exists' in smt2
     tried = []
@@ -164,13 +303,42 @@ def discharge(obs, timeout_s=10, use_cvc5=True, tactic=None, nproc=None):
         if z3.is_true(g) and o.kind != 'cover':
             verdicts[i].status, verdicts[i].backend = 'unsat', 'simplifier'
             continue
-        f = z3.simplify(o.formula())
-        if z3.is_false(f):
+        f = z3.simplify(o.formula()) if len(o.assumptions) < 300 else None
+        if f is not None and z3.is_false(f):
             verdicts[i].status, verdicts[i].backend = 'unsat', 'simplifier'
             continue
-        jobs.append((i, to_smt2(o)))
+        jobs.append(i)
+    # early attempts on small, relevant subsets of the assumptions (cheap to serialise and to solve)
+    n_workers = nproc or NPROC
+    timing = os.environ.get('VERIF_TIMING')
+    t_start = time.time()
+    for depth in (1, 3):
+        todo = []
+        for i in jobs:
+            pr = to_smt2_pruned(obs[i], depth) if obs[i].kind != 'cover' else None
+            if pr is not None:
+                todo.append((str(i), pr, max(1500, timeout_s * 150)))
+        if not todo:
+            continue
+        if len(todo) > 1 and n_workers > 1:
+            with mp.get_context('fork').Pool(min(n_workers, len(todo))) as pool:
+                early = pool.map(_pruned_worker, todo, chunksize=max(1, len(todo) // (8 * n_workers)))
+        else:
+            early = [_pruned_worker(w) for w in todo]
+        done = set()
+        for nm, r, t in early:
+            v = verdicts[int(nm)]
+            v.time_s += t
+            if r == 'unsat':
+                v.status, v.backend = 'unsat', 'z3(relevant assumptions, depth %d)' % depth
+                v.tried = ['z3-pruned%d:unsat:%.1fs' % (depth, t)]
+                done.add(int(nm))
+        jobs = [i for i in jobs if i not in done]
+        if timing:
+            print('[discharge] depth %d: %d queries, %d discharged, %d left, %.1fs' % (depth, len(todo), len(done), len(jobs), time.time() - t_start), flush=True)
+    jobs = [(i, to_smt2(obs[i]), None) for i in jobs]
     if jobs:
-        work = [(str(i), smt, timeout_s, use_cvc5) for i, smt in jobs]
+        work = [(str(i), smt, timeout_s, use_cvc5, pr) for i, smt, pr in jobs]
         n = min(nproc or NPROC, len(work))
         if n > 1:
             with mp.get_context('fork').Pool(n) as pool:
@@ -179,7 +347,7 @@ def discharge(obs, timeout_s=10, use_cvc5=True, tactic=None, nproc=None):
             results = [_portfolio_worker(w) for w in work]
         for (nm, res, t, model, backend, tried) in results:
             v = verdicts[int(nm)]
-            v.time_s, v.tried = t, tried
+            v.time_s, v.tried = v.time_s + t, tried
             if res in ('sat', 'unsat'):
                 v.status, v.model, v.backend = res, model, backend
             else:
